@@ -10,7 +10,7 @@ use kira::effect::filter::FilterMode;
 use kira::Frame;
 
 use crate::jobj;
-use crate::probes::{run_effect, FxSpec, SAMPLE_RATES};
+use crate::probes::{run_effect, run_effect_after_rate_change, FxSpec, SAMPLE_RATES};
 use crate::refmodel::db_to_amp;
 use crate::util::{Ctx, Rng, J};
 
@@ -34,6 +34,11 @@ fn db(x: f64) -> f64 {
 
 /// steady-state gain (left channel) of an effect for a sine of frequency ~f; returns (actual f, gain)
 fn sine_gain(spec: &FxSpec, sr: u32, f: f64, settle: usize, amp: f64) -> (f64, f64) {
+	sine_gain_live(spec, sr, f, settle, amp, None)
+}
+
+/// `before`: the instance has been running at this other device rate until just before the measurement
+fn sine_gain_live(spec: &FxSpec, sr: u32, f: f64, settle: usize, amp: f64, before: Option<u32>) -> (f64, f64) {
 	// snap f so that the measuring window holds a whole number of periods
 	let periods = 24.0f64;
 	let m = ((periods * sr as f64 / f).ceil() as usize).clamp(2048, 400_000);
@@ -47,7 +52,10 @@ fn sine_gain(spec: &FxSpec, sr: u32, f: f64, settle: usize, amp: f64) -> (f64, f
 			Frame::new(v, v)
 		})
 		.collect();
-	let y = run_effect(spec, sr, 128, &x, &[128]);
+	let y = match before {
+		Some(b) => run_effect_after_rate_change(spec, b, sr, 128, &x, &[128]),
+		None => run_effect(spec, sr, 128, &x, &[128]),
+	};
 	let (mut s, mut c, mut si, mut ci) = (0.0, 0.0, 0.0, 0.0);
 	for i in settle..n {
 		let (sn, cs) = ((w * i as f64).sin(), (w * i as f64).cos());
@@ -119,10 +127,15 @@ fn check_filter(ctx: &mut Ctx, idx: u64, r: &mut Rng) -> Option<(String, J)> {
 	let spec = FxSpec::Filter { mode, cutoff: fc, resonance: res, mix: mix as f32 };
 	ctx.distinct_str(&format!("filter|{:?}|{}|{}|{}", mode, sr, (fc.log2() * 2.0) as i64, (res * 4.0) as i64));
 	let kq = 1.0 / k;
+	// in a third of the cases the instance has lived at another device rate before (hertz keep their meaning)
+	let before = if r.chance(0.33) { Some(*r.pick(&SAMPLE_RATES)) } else { None };
+	if before.is_some() {
+		ctx.count("filter_cases_after_live_rate_change", 1);
+	}
 	// (a) response at random probe frequencies vs the analytic bilinear SVF
 	for _ in 0..3 {
 		let f = r.log_in(10.0f64.max(fc / 30.0), nyq * 0.98);
-		let (f2, got) = sine_gain(&spec, sr, f, settle_frames(sr, fc, kq, f), 0.25);
+		let (f2, got) = sine_gain_live(&spec, sr, f, settle_frames(sr, fc, kq, f), 0.25, before);
 		let want = filter_response(mode, fc, res, mix, sr, f2);
 		ctx.count("filter_sine_probes", 1);
 		if want > 1e-3 && (db(got) - db(want)).abs() > 0.05 {
@@ -210,10 +223,14 @@ fn check_eq(ctx: &mut Ctx, idx: u64, r: &mut Rng) -> Option<(String, J)> {
 		}
 	}
 	ctx.count("eq_closed_form_checks", 1);
-	// full response against the cited design
+	// full response against the cited design; in a third of the cases after a live change of the device rate
+	let before = if r.chance(0.33) { Some(*r.pick(&SAMPLE_RATES)) } else { None };
+	if before.is_some() {
+		ctx.count("eq_cases_after_live_rate_change", 1);
+	}
 	for _ in 0..3 {
 		let f = r.log_in(10.0f64.max(fc / 30.0), nyq * 0.98);
-		let (f2, got) = sine_gain(&spec, sr, f, st, 0.05);
+		let (f2, got) = sine_gain_live(&spec, sr, f, st, 0.05, before);
 		let want = eq_response(kind, fc, gain_db, q, sr, f2);
 		ctx.count("eq_sine_probes", 1);
 		if (db(got) - db(want)).abs() > 0.1 {
